@@ -51,6 +51,10 @@ func c06History(name string, u *uni.U, gen *wh.CPGen, la, lb wh.LogCfg) []c06Ste
 	switch name {
 	case "H1":
 		return []c06Step{{req(la, m, 0, 4), wh.OK}, {req(la, m, 4, 6), wh.OK}, {req(la, m, 6, 6), wh.OK}}
+	case "H3":
+		// A log that is still empty: first use at size 0, the same-size
+		// re-submission every polling round makes, then another log.
+		return []c06Step{{req(la, m, 0, 0), wh.OK}, {req(la, m, 0, 0), wh.OK}, {req(lb, m, 0, 3), wh.OK}, {req(la, m, 0, 0), wh.OK}}
 	case "H2":
 		return []c06Step{{req(la, m, 0, 4), wh.OK}, {req(lb, m, 0, 3), wh.OK}, {req(la, m, 4, 6), wh.OK},
 			{req(la, f4, 6, 8), wh.BadProof}, {req(lb, m, 3, 5), wh.OK}, {req(la, m, 6, 6), wh.OK}, {req(la, f4, 6, 6), wh.RootMismatch}, {req(la, m, 6, 9), wh.OK}}
@@ -333,12 +337,7 @@ func c06(tier string) int {
 	u, gen, la, lb := c06Universe()
 	self, _ := os.Executable()
 	scratch := c06Scratch()
-	hists := []string{"H1"}
-	if tier == "thorough" {
-		hists = append(hists, "H2")
-	} else {
-		hists = append(hists, "H2")
-	}
+	hists := []string{"H1", "H2", "H3"}
 	total := int64(0)
 	for _, hn := range hists {
 		steps := c06History(hn, u, gen, la, lb)
@@ -421,7 +420,7 @@ func c06(tier string) int {
 	run.Set("evaluations", total)
 	run.Set("crash_points", total)
 	run.Set("exhaustive", true)
-	run.Set("rule", "for histories H1 (first use, growth, refresh of one log) and H2 (two logs interleaved, a refused fork growth and a refused same-size fork between the writes): the worker process is SIGKILLed before and after EVERY database/sql driver operation (open/begin/prepare/query/next/rows-close/stmt-close/exec/commit/rollback, numbered by a wrapping driver) of a crash-free reference run on a file-backed SQLite store; a FRESH process reopens the store (SQLite recovers from the hot journal) and reports the state and probes; additionally a kill at every file syscall (pwrite64/fsync/fdatasync/unlink/ftruncate) on the database and its journal via strace injection. Binary tier: the real cmd/omniwitness binary (its own flags, its own way of opening --db_file, omniwitness.Main, serverless feeders polling stub logs over loopback HTTP) is SIGKILLed after each acknowledged update of a two-log history and restarted twice on the same file. Oracle: stored rows are complete validly cosigned notes; in-flight log = last acknowledged or being written, others exactly last acknowledged; restarted witness refuses forks and accepts growth. distinct_nontrivial = distinct crash points")
+	run.Set("rule", "for histories H1 (first use, growth, refresh of one log), H2 (two logs interleaved, a refused fork growth and a refused same-size fork between the writes) and H3 (a log that is still empty: first use at size 0 and its same-size re-submissions, another log in between): the worker process is SIGKILLed before and after EVERY database/sql driver operation (open/begin/prepare/query/next/rows-close/stmt-close/exec/commit/rollback, numbered by a wrapping driver) of a crash-free reference run on a file-backed SQLite store; a FRESH process reopens the store (SQLite recovers from the hot journal) and reports the state and probes; additionally a kill at every file syscall (pwrite64/fsync/fdatasync/unlink/ftruncate) on the database and its journal via strace injection. Binary tier: the real cmd/omniwitness binary (its own flags, its own way of opening --db_file, omniwitness.Main, serverless feeders polling stub logs over loopback HTTP) is SIGKILLed after each acknowledged update of a two-log history and restarted twice on the same file. Oracle: stored rows are complete validly cosigned notes; in-flight log = last acknowledged or being written, others exactly last acknowledged; restarted witness refuses forks and accepts growth. distinct_nontrivial = distinct crash points")
 	run.Assumption("process kill, not power loss: everything the kernel accepted survives; torn sectors and lost un-fsynced writes are not explored")
 	// Fault leg: an update is acknowledged only when its commit succeeded
 	// (every single SQL-driver / interface fault in the C07 histories; an
